@@ -535,7 +535,10 @@ class Engine:
             r = self.is_same(a, b, st, node)
             return r if isinstance(op, ast.Is) else z3.Not(r)
         if isinstance(op, (ast.Eq, ast.NotEq)):
-            r = self.equals(a, b, st, node)
+            if (isinstance(a.ty, StrT) and isinstance(b.ty, IntT)) or (isinstance(a.ty, IntT) and isinstance(b.ty, StrT)):
+                r = z3.BoolVal(False)  # python: a str never equals an int
+            else:
+                r = self.equals(a, b, st, node)
             return r if isinstance(op, ast.Eq) else z3.Not(r)
         if isinstance(a.ty, (RealT, IntT)) and isinstance(b.ty, (RealT, IntT)) and (isinstance(a.ty, RealT) or isinstance(b.ty, RealT)):
             a = Val(a.t if isinstance(a.ty, RealT) else z3.ToReal(a.t), REAL)
@@ -691,6 +694,14 @@ class Engine:
         return iv.t
 
     def ev_Subscript(self, n, st):
+        v = self._ev_Subscript(n, st)
+        if not self.in_spec and isinstance(v.ty, (ListT, ObjT, TupleT, OptT, OrdDictT)):
+            # every python list has a non-negative length: also the ones read out of a container
+            for f_ in type_invariant(v.t, v.ty):
+                st.assume(f_)
+        return v
+
+    def _ev_Subscript(self, n, st):
         base = self.ev(n.value, st)
         ty = base.ty
         if isinstance(n.slice, ast.Slice):
